@@ -1109,16 +1109,62 @@ func ruleShortBatch(p *Prog, r *Result) {
 			return found
 		}
 		var allowedEdge func(b *ssa.BasicBlock, si int, depth int) bool
-		justifiedBlock := func(b *ssa.BasicBlock, depth int) bool {
-			// b is dominated by an allowed edge
-			for _, x := range fn.Blocks {
+		nonEmptyEdge := func(b *ssa.BasicBlock, si int) bool {
+			// the batch is known to hold rows: rowCounter > 0 (or >= 1, != 0)
+			a, ok := edgeAtom(b, si)
+			if !ok {
+				return false
+			}
+			k, isC := constInt(a.Y)
+			if !isC {
+				return false
+			}
+			pos := (a.Op == token.GTR && k == 0) || (a.Op == token.GEQ && k == 1) || (a.Op == token.NEQ && k == 0)
+			if isRowCounter(a.X) {
+				return pos
+			}
+			// a pass-through plan (no filter of its own): the child's batch holds rows, and rows are only withheld
+			// once the limit is reached
+			if pos && lenOfRows(a.X) {
+				filters := false
+				allInstrs(fn, func(in ssa.Instruction) {
+					if c, ok := in.(*ssa.Call); ok {
+						if g := c.Call.StaticCallee(); g != nil && (g.Name() == "FilterBatch" || g.Name() == "Filter") {
+							filters = true
+						}
+					}
+				})
+				return !filters
+			}
+			return false
+		}
+		emptyMode := false // while deciding the no-early-empty clause, "the batch holds rows" justifies as well
+		var justifiedBlock func(b *ssa.BasicBlock, depth int) bool
+		justifiedBlock = func(b *ssa.BasicBlock, depth int) bool {
+			// b is dominated by an allowed edge ...
+			for _, x := range b.Parent().Blocks {
 				for si := range x.Succs {
-					if edgeDominates(x, si, b) && allowedEdge(x, si, depth+1) {
+					if edgeDominates(x, si, b) && (allowedEdge(x, si, depth+1) || (emptyMode && nonEmptyEdge(x, si))) {
 						return true
 					}
 				}
 			}
-			return false
+			// ... or every way into b is an allowed edge or comes from such a block (`a || (b && c)` merges)
+			if depth > 2 || len(b.Preds) == 0 {
+				return false
+			}
+			for _, pr := range b.Preds {
+				okPred := false
+				for si, sc := range pr.Succs {
+					if sc == b && (allowedEdge(pr, si, depth+1) || (emptyMode && nonEmptyEdge(pr, si))) {
+						okPred = true
+					}
+				}
+				if !okPred && !justifiedBlock(pr, depth+1) {
+					return false
+				}
+			}
+			return true
 		}
 		allowedEdge = func(b *ssa.BasicBlock, si int, depth int) bool {
 			if depth > 3 {
@@ -1195,20 +1241,42 @@ func ruleShortBatch(p *Prog, r *Result) {
 				case *ssa.UnOp:
 					if _, fl, base, ok := loadedField(f); ok && base == recv {
 						okAll, any := true, false
-						allInstrs(fn, func(in ssa.Instruction) {
-							if st, ok := in.(*ssa.Store); ok {
-								if _, f2, b2, ok := fieldOfAddr(st.Addr); ok && f2 == fl && b2 == recv {
-									if cv, isC := constBool(st.Val); isC && cv {
-										any = true
-										if !justifiedBlock(st.Block(), depth) {
+						for _, hf := range p.staticClosure(fn, 2, nil) {
+							if hf.Signature.Recv() == nil || namedOf(hf.Signature.Recv().Type()) != t {
+								continue
+							}
+							hrecv := ssa.Value(hf.Params[0])
+							allInstrs(hf, func(in ssa.Instruction) {
+								if st, ok := in.(*ssa.Store); ok {
+									if _, f2, b2, ok := fieldOfAddr(st.Addr); ok && f2 == fl && b2 == hrecv {
+										if cv, isC := constBool(st.Val); isC && cv {
+											any = true
+											if !justifiedBlock(st.Block(), depth) {
+												okAll = false
+											}
+										} else if !isC {
 											okAll = false
 										}
-									} else if !isC {
-										okAll = false
 									}
 								}
-							}
-						})
+							})
+						}
+						if false {
+							allInstrs(fn, func(in ssa.Instruction) {
+								if st, ok := in.(*ssa.Store); ok {
+									if _, f2, b2, ok := fieldOfAddr(st.Addr); ok && f2 == fl && b2 == recv {
+										if cv, isC := constBool(st.Val); isC && cv {
+											any = true
+											if !justifiedBlock(st.Block(), depth) {
+												okAll = false
+											}
+										} else if !isC {
+											okAll = false
+										}
+									}
+								}
+							})
+						}
 						return okAll && any
 					}
 				}
@@ -1231,7 +1299,7 @@ func ruleShortBatch(p *Prog, r *Result) {
 					}
 				}
 				for si, s2 := range b.Succs {
-					if allowedEdge(b, si, 0) {
+					if allowedEdge(b, si, 0) || nonEmptyEdge(b, si) {
 						continue
 					}
 					if rt := walkE(s2); rt != nil {
@@ -1240,7 +1308,9 @@ func ruleShortBatch(p *Prog, r *Result) {
 				}
 				return nil
 			}
+			emptyMode = true
 			rt := walkE(fn.Blocks[0])
+			emptyMode = false
 			r.add(rt == nil, key+"|no-early-empty", p.Pos(fn.Pos()), map[bool]string{true: "every successful return follows a test that the batch is full or that the stream, region or limit ended", false: "a batch can be returned (at " + func() string {
 				if rt != nil {
 					return p.InstrPos(rt)
